@@ -59,11 +59,14 @@ def call(x, api, dtype, nd=None):
         t, p, s, tr = gund(a, nd)
     else:
         da = xr.DataArray(a.reshape(1, 1, -1), dims=("y", "x", "time"))
-        if api == "mktrend_nd":
+        if api.startswith("mktrend_nd"):
             da.attrs["nodata"] = nd
         if api.endswith("dask"):
             da = da.chunk({"y": 1, "x": 1})
         r = da.hdc.algo.mktrend()
+        # the Dataset's shape: four variables, dtypes, the trend's own nodata
+        if sorted(r.data_vars) != ["pvalue", "slope", "tau", "trend"] or str(r["trend"].dtype) != "int8" or r["trend"].attrs.get("nodata") != -2 or any(str(r[v].dtype) != "float32" for v in ("tau", "pvalue", "slope")):
+            raise RuntimeError("mktrend dataset layout")
         t, p, s, tr = (np.asarray(r[n]).reshape(-1)[0] for n in ("tau", "pvalue", "slope", "trend"))
     return core.rat(t), core.rat(p), core.rat(s), int(tr)
 
@@ -126,7 +129,7 @@ def gen_cases(tier, seed):
             xi = [rng.randint(-10000, 10000) for _ in range(n)]
         else:
             xi = [rng.choice([0, 1]) for _ in range(n)]
-        api = rng.choice(["1d", "gu", "gund", "mktrend", "mktrend_nd"])
+        api = rng.choice(["1d", "gu", "gund", "mktrend", "mktrend_nd", "mktrend_dask", "mktrend_nd_dask"])
         if api == "1d":
             dtype = rng.choice(["int16", "float32", "float64"])
         if dtype != "int16" and rng.random() < 0.5:
